@@ -86,11 +86,13 @@ FieldRange(p, open, lokind, hikind, close) ==
       toks == <<f, Sy("COLON"), Sy(open), lo, Sy("TO"), hi, Sy(close)>>
   IN Out(toks, [op |-> "RANGE", l |-> RCol(f), lo |-> RLeaf(lo), hi |-> RLeaf(hi),
                 inc |-> (open = "LSQUARE" /\ close = "RSQUARE")], p + 3)
-FieldList(p, n) ==
+\* vp: the whole parenthesised list once more in parentheses and every item in parentheses of its own (C09)
+FieldList(p, n, vp) ==
   LET f == Tk("word", p)
       item(i) == Tk(IF i = 2 THEN "int" ELSE "word", p + i)
-      body == IF n = 2 THEN <<item(1), Sy("OR"), item(2)>> ELSE <<item(1), Sy("OR"), item(2), Sy("OR"), item(3)>>
-      toks == <<f, Sy("COLON"), LP>> \o body \o <<RP>>
+      it(i) == IF vp THEN <<LP, item(i), RP>> ELSE <<item(i)>>
+      body == IF n = 2 THEN it(1) \o <<Sy("OR")>> \o it(2) ELSE it(1) \o <<Sy("OR")>> \o it(2) \o <<Sy("OR")>> \o it(3)
+      toks == <<f, Sy("COLON"), LP>> \o (IF vp THEN <<LP>> ELSE <<>>) \o body \o (IF vp THEN <<RP>> ELSE <<>>) \o <<RP>>
   IN Out(toks, [op |-> "IN", l |-> RCol(f), items |-> [i \in 1..n |-> RLeaf(item(i))]], p + n + 1)
 
 \* a value list with repeated values: f:(same OR same) and f:(same OR same OR w)
@@ -132,8 +134,8 @@ LeafForm(k, p, vp) ==
     [] k = "fxrange"  -> FieldRange(p, "LCURLY", "word", "star", "RCURLY")
     [] k = "fxirange" -> FieldRange(p, "LCURLY", "int", "int", "RCURLY")
     [] k = "fmrange"  -> FieldRange(p, "LSQUARE", "star", "float", "RSQUARE")
-    [] k = "flist"    -> FieldList(p, 2)
-    [] k = "flist3"   -> FieldList(p, 3)
+    [] k = "flist"    -> FieldList(p, 2, vp)
+    [] k = "flist3"   -> FieldList(p, 3, vp)
 
 Sym(o) == CASE o = "NOT" -> "NOT" [] o = "MUST" -> "PLUS" [] o = "MUST_NOT" -> "MINUS"
             [] o = "FUZZY" -> "TILDE" [] o = "BOOST" -> "CARROT" [] OTHER -> o
